@@ -40,7 +40,7 @@ _stage = st.fixed_dictionaries({
     "proc": st.sampled_from(["pass", "pass", "pass", "raise"]),
     "err": st.sampled_from(["none", "none", "pass", "raise"]),
     "required": st.sampled_from([True, True, False]),
-    "amp": st.sampled_from([0.5, 1, 2, 10, 200]),
+    "amp": st.sampled_from([0.5, 1, 2, 10, 200, 0.1, 0.01, 4, 50, 0.5, 0.1]),
 })
 _json = st.recursive(st.one_of(st.none(), st.booleans(), st.integers(-5, 5), st.text(max_size=4)),
                      lambda c: st.one_of(st.lists(c, max_size=3), st.dictionaries(st.sampled_from(["active", "tier", "get", "x"]), c, max_size=3)), max_leaves=6)
@@ -50,11 +50,24 @@ def strategy(tier):
     plain = st.fixed_dictionaries({"halt": st.booleans(), "max_amp": st.sampled_from([10, 100]), "input": st.integers(0, 3), "exc": st.integers(0, 15), "names": st.sampled_from(["unique", "unique", "same", "pairs"]), "reruns": st.sampled_from([0] * 39 + [1001]),
                                    "stages": st.lists(_stage, min_size=1, max_size=5)})
     mapk = st.fixed_dictionaries({"mapk": st.just(True), "halt": st.booleans(), "max_amp": st.sampled_from([10, 100, 1000, 5000]),
-                                  "amps": st.lists(st.sampled_from([0.5, 1, 2, 10, 200]), min_size=3, max_size=3), "input": _json})
+                                  "amps": st.lists(st.sampled_from([0.5, 1, 2, 10, 200, 0.1, 0.01, 4, 50, 0.5, 0.1]), min_size=3, max_size=3), "input": _json})
     return st.integers(0, 7).flatmap(lambda k: mapk if k == 0 else plain)
 
 
+def _amp_table():
+    """all passing pipelines of 2..3 stages over amplification factors around the ceiling: the reported amplification is a clamped product
+    (running or final clamp), never something else"""
+    amps = [0.01, 0.1, 0.5, 1, 4, 10, 50, 200]
+    for n in (2, 3):
+        for combo in itertools.product(amps, repeat=n):
+            for max_amp in (10, 100):
+                yield {"halt": True, "max_amp": max_amp, "input": 0,
+                       "stages": [{"cp": "pass", "proc": "pass", "err": "none", "required": True, "amp": a_} for a_ in combo]}
+
+
 def enumerate_cases(tier):
+    for case in _amp_table():
+        yield case
     depth = 3 if tier == "thorough" else 2
     behaviours = []
     for cp, proc, err, req in itertools.product(CPS, ["pass", "raise"], ["none", "pass", "raise"], [True, False]):
